@@ -591,7 +591,27 @@ def run_gram(ctx, exes):
 
 # ----------------------------------------------------------------------------- entry points
 
+def nul_stage(ctx):
+    """data with embedded NUL bytes through every input class that takes a length (the grammar-level corpus uses C-string
+    alphabets): harness/c07_nul.cpp compares each class with memory_input( pointer, size )"""
+    exe = vlib.build_cpp([os.path.join(vlib.VERIF, "harness", "c07_nul.cpp")], "c07_nul", flags=["-O1"], compiler="g++")
+    rc, out = vlib.sh([exe], timeout=600)
+    done = [l for l in out.split("\n") if l.startswith("DONE ")]
+    if rc != 0 or not done:
+        ctx.violation("c07 NUL stage crashed", "harness/c07_nul.cpp ended abnormally: " + out[-400:], {"mode": "nul"})
+        return
+    seen = set()
+    for l in [l for l in out.split("\n") if l.startswith("BAD ")]:
+        cls_ = l[4:].split(" on ")[0]
+        if cls_ in seen:
+            continue
+        seen.add(cls_)
+        ctx.violation("NUL-bearing data: %s differs from memory_input( pointer, size )" % cls_, l[4:500], {"mode": "nul", "line": l[:1000]})
+    ctx.cover(evaluations=int(done[0].split()[1]) * 9, distinct=int(done[0].split()[1]), validated=0, nul_stage_cases=int(done[0].split()[1]))
+
+
 def run(ctx):
+    nul_stage(ctx)
     rep = ctx.proofs("Properties_C07")
     model = vlib.build_ocaml("ExtractC07", "c07_driver.ml", "c07_driver")
     exes, asan = build_all(ctx.tier == "thorough")
@@ -616,6 +636,22 @@ def run(ctx):
 def replay(j):
     r = j.get("replay", {})
     mode = r.get("mode")
+    if mode == "nul":
+        class _C:
+            def __init__(self):
+                self.v = []
+
+            def violation(self, sig, what, rp):
+                self.v.append(what)
+
+            def cover(self, **k):
+                pass
+        c = _C()
+        nul_stage(c)
+        for w in c.v[:6]:
+            print("REPLAY:", w[:300])
+        print("VIOLATION property=C07 replay=(replayed)" if c.v else "no violation on the current tree")
+        return 1 if c.v else 0
     if mode == "gram":
         part = r["grammar"] % NPARTS
         exe = build_impl(part)
